@@ -10,7 +10,7 @@
 (***************************************************************************)
 EXTENDS Emit
 
-Ns == (IF Thorough THEN 1..5 ELSE 1..3) \cup {7}
+Ns == (IF Thorough THEN 1..5 ELSE 1..3) \cup {7, 17}
 Cs == IF Thorough THEN 1..4 ELSE 1..3
 Descs0 == SetToSeq(({"mse", "bce"} \X Ns \X {0} \X BOOLEAN) \cup ({"ce"} \X Ns \X Cs \X BOOLEAN))
 Bad == << <<"mse", <<2>>, <<3>>>>, <<"bce", <<2>>, <<3>>>>, <<"ce", <<2, 2>>, <<2, 3>>>>, <<"ce", <<2, 2>>, <<3, 2>>>>,
